@@ -11,6 +11,7 @@ import ReqVerif.Model.Metadata
 import ReqVerif.Model.ReqFile
 import ReqVerif.Model.Frontends
 import ReqVerif.Model.Repos
+import ReqVerif.Model.Cache
 /-!
 rvdriver: line protocol between the Python harness and the executable models.
 One JSON object per input line (`{"op": ..., ...}`), one JSON value per output line.
@@ -270,6 +271,31 @@ def opMulti (j : Json) : Json :=
                 ("answer", match r.1 with | .ok i => Json.num (JsonNumber.fromNat i) | .noCand => Json.str "nocand" | .raise _ => Json.str "raise"),
                 ("queried", jsonNats r.2)]
 
+/-! ### download cache (C15) -/
+
+def showDir (d : Cache.Dir) : Json :=
+  Json.arr (d.map fun p => Json.arr #[Json.str p.1, jsonNats p.2]).toArray
+
+def opCache (j : Json) : Json :=
+  -- contents are identified by small numbers; `digests[i]` is the digest id of content `[i]`
+  let digests := jNats j "digests"
+  let sha : Cache.Content → Cache.Digest := fun c => match c with | [i] => digests.getD i 0 | _ => 0
+  let readableIds := jNats j "readable"
+  let readable : Cache.Content → Bool := fun c => match c with | [i] => readableIds.contains i | _ => false
+  let dir : Cache.Dir := (jArr j "dir").map fun p => (jStr p "fn", [jNat p "content"])
+  let link : Cache.Link := { fn := jStr j "fn", sha := jOptNat j "sha" }
+  let server : Cache.Resp := { status := jNat j "status", body := [jNat j "body"] }
+  match Cache.resolve sha readable dir link server with
+  | .dist d cached => Json.mkObj [("outcome", "dist"), ("cached", Json.bool cached), ("dir", showDir d)]
+  | .metadataError d => Json.mkObj [("outcome", "MetadataError"), ("dir", showDir d)]
+  | .transferError d => Json.mkObj [("outcome", "HTTPError"), ("dir", showDir d)]
+
+def opScanPage (j : Json) : Json :=
+  let script : List Cache.Resp := (jNats j "statuses").map fun st => { status := st, body := [] }
+  let r := Cache.scanPage (jNat j "retries") script
+  Json.mkObj [("page", match r.1 with | .ok _ => Json.str "ok" | .empty => Json.str "empty" | .error st => Json.num (JsonNumber.fromNat st)),
+              ("requests", Json.num (JsonNumber.fromNat r.2))]
+
 def dispatch (op : String) (j : Json) : Json :=
   match op with
   | "merge" => opMerge j
@@ -284,6 +310,8 @@ def dispatch (op : String) (j : Json) : Json :=
   | "reqfile" => opReqFile j
   | "frontends" => opFrontends j
   | "multi" => opMulti j
+  | "cache" => opCache j
+  | "scan-page" => opScanPage j
   | "requires-python" => opRequiresPython j
   | "wheel-name" => opWheelName j
   | "compile" => opCompile j
